@@ -52,6 +52,11 @@ def total1(ctx) -> List[Ob]:
             name = lambda v: f"{v}+" if v == 4 else str(v)  # noqa: E731
             key = f"len({params[0]})={name(lt)}, len({params[1]})={name(le)}"
             kind_, node_ = _run_lens(body, lens)
+            if kind_ == "unknown":
+                jr = _JoinRun(params[0], params[1], lt, le)
+                k2 = jr.run(body)
+                if k2 in ("return", "reject"):
+                    kind_, node_ = k2, jr.node
             if kind_ == "return":
                 guard = next((a for a in A.ancestors(node_) if isinstance(a, ast.If)), None)
                 verdict = ("ok", f"handled by 'if {A.unparse(guard.test)}'" if guard is not None else "default return", node_)
@@ -347,6 +352,136 @@ def _termination_idiom(ctx, fn, w: ast.While):
     return False, f"'while {A.unparse(test)[:40]}' has no recognised variant"
 
 
+class _JoinRun:
+    """abstract run of join_tails_and_exits for one pair of length classes (finite domain, no execution):
+    follows len() guards and boolean temporaries bound to them, records where the two result names come
+    from and which insertions are made with which arguments"""
+
+    def __init__(self, tails: str, exits: str, lt: int, le: int) -> None:
+        self.P = (tails, exits)
+        self.lists: Dict[str, tuple] = {tails: ("param", tails), exits: ("param", exits)}
+        self.plen = {tails: lt, exits: le}
+        self.bools: Dict[str, Optional[bool]] = {}
+        self.origin: Dict[str, str] = {}
+        self.events: List[tuple] = []
+        self.result: Optional[tuple] = None
+        self.status = "end"
+        self.node: Optional[ast.AST] = None
+
+    def length(self, name: str) -> Optional[int]:
+        d = self.lists.get(name)
+        if d is None:
+            return None
+        return self.plen[d[1]] if d[0] == "param" else len(d[1])
+
+    def test(self, t: ast.AST) -> Optional[bool]:
+        if isinstance(t, ast.Name):
+            return self.bools.get(t.id)
+        if isinstance(t, ast.UnaryOp) and isinstance(t.op, ast.Not):
+            v = self.test(t.operand)
+            return None if v is None else not v
+        if isinstance(t, ast.BoolOp):
+            vs = [self.test(x) for x in t.values]
+            if isinstance(t.op, ast.And):
+                return False if False in vs else (None if None in vs else True)
+            return True if True in vs else (None if None in vs else False)
+        lens = {n: self.length(n) for n in self.lists}
+        if any(v is None for v in lens.values()):
+            return None
+        return eval_len_test(t, lens)
+
+    def desc(self, e: ast.AST) -> str:
+        if isinstance(e, ast.Name):
+            d = self.lists.get(e.id)
+            if d is not None:
+                return d[1] if d[0] == "param" else "[" + ", ".join(d[1]) + "]"
+            return e.id
+        if isinstance(e, (ast.List, ast.Tuple)):
+            return "[" + ", ".join(A.unparse(x) for x in e.elts) + "]"
+        return A.unparse(e)
+
+    def only_of(self, v: ast.AST) -> Optional[str]:
+        """L when v picks the only element of list L (next(iter(L)), L[0])"""
+        if isinstance(v, ast.Call) and isinstance(v.func, ast.Name) and v.func.id == "next" and v.args and isinstance(v.args[0], ast.Call) and isinstance(v.args[0].func, ast.Name) and v.args[0].func.id == "iter" and v.args[0].args and isinstance(v.args[0].args[0], ast.Name):
+            return v.args[0].args[0].id
+        if isinstance(v, ast.Subscript) and isinstance(v.value, ast.Name) and isinstance(v.slice, ast.Constant) and v.slice.value in (0, -1):
+            return v.value.id
+        return None
+
+    def run(self, stmts) -> str:
+        for st in stmts:
+            if isinstance(st, ast.If):
+                v = self.test(st.test)
+                if v is None:
+                    self.status, self.node = "unknown", st
+                    return self.status
+                r = self.run(st.body if v else st.orelse)
+                if r != "end":
+                    return r
+                continue
+            if isinstance(st, ast.Return):
+                self.status, self.node = "return", st
+                if isinstance(st.value, ast.Tuple) and len(st.value.elts) == 2:
+                    self.result = tuple(A.unparse(x) for x in st.value.elts)
+                return self.status
+            if isinstance(st, ast.Raise) or (isinstance(st, ast.Assert) and isinstance(st.test, ast.Constant) and not st.test.value):
+                self.status, self.node = "reject", st
+                return self.status
+            if isinstance(st, (ast.Assign, ast.AnnAssign)) and st.value is not None:
+                tg = st.targets[0] if isinstance(st, ast.Assign) else st.target
+                v = st.value
+                if isinstance(tg, (ast.Tuple, ast.List)) and len(tg.elts) == 1 and isinstance(tg.elts[0], ast.Name) and isinstance(v, ast.Name) and v.id in self.lists:
+                    ln = self.length(v.id)
+                    self.origin[tg.elts[0].id] = ("only:" + self.desc(v)) if ln == 1 else ("one-of-many:" + self.desc(v))
+                    continue
+                if not isinstance(tg, ast.Name):
+                    continue
+                if isinstance(v, (ast.Compare, ast.BoolOp, ast.UnaryOp)):
+                    self.bools[tg.id] = self.test(v)
+                    continue
+                L = self.only_of(v)
+                if L is not None and L in self.lists:
+                    ln = self.length(L)
+                    self.origin[tg.id] = ("only:" + self.desc(ast.Name(id=L))) if ln == 1 else ("one-of-many:" + self.desc(ast.Name(id=L)))
+                    continue
+                if isinstance(v, ast.IfExp):
+                    c = self.test(v.test)
+                    if c is None:
+                        self.status, self.node = "unknown", st
+                        return self.status
+                    v = v.body if c else v.orelse
+                    L = self.only_of(v)
+                    if L is not None and L in self.lists:
+                        self.origin[tg.id] = ("only:" + self.desc(ast.Name(id=L))) if self.length(L) == 1 else ("one-of-many:" + self.desc(ast.Name(id=L)))
+                        continue
+                if any(isinstance(c, ast.Call) and isinstance(c.func, ast.Attribute) and c.func.attr == "new_block_name" for c in ast.walk(v)):
+                    self.origin[tg.id] = "fresh"
+                    continue
+                if isinstance(v, (ast.List, ast.Tuple)) and all(isinstance(x, ast.Name) for x in v.elts):
+                    self.lists[tg.id] = ("list", [x.id for x in v.elts])
+                    continue
+                if isinstance(v, ast.Name) and v.id in self.lists:
+                    self.lists[tg.id] = self.lists[v.id]
+                    continue
+                if isinstance(v, ast.Name) and v.id in self.origin:
+                    self.origin[tg.id] = self.origin[v.id]
+                    continue
+                if tg.id in self.origin or tg.id in self.lists:
+                    self.origin[tg.id] = "other:" + A.unparse(v)[:30]
+                continue
+            if isinstance(st, ast.Expr) and isinstance(st.value, ast.Call) and isinstance(st.value.func, ast.Attribute):
+                c = st.value
+                cls_ = None
+                if c.func.attr.startswith("insert_Synthetic"):
+                    cls_ = c.func.attr[len("insert_"):]
+                elif c.func.attr == "insert_block":
+                    bt = kw(c, "block_type", 3)
+                    cls_ = (A.dotted(bt) or "?").split(".")[-1] if bt is not None else "?"
+                if cls_ is not None and len(c.args) >= 3:
+                    self.events.append((cls_, A.unparse(c.args[0]), self.desc(c.args[1]), self.desc(c.args[2]), st))
+        return "end"
+
+
 @rule("TOTAL-5", 4, "each case of join_tails_and_exits inserts the tail after the given tails and the exit before the given exits, and returns exactly the names it inserted (or the single given ones)")
 def total5(ctx) -> List[Ob]:
     out: List[Ob] = []
@@ -354,80 +489,55 @@ def total5(ctx) -> List[Ob]:
     if fn is None:
         raise AnalysisError("SCFG.join_tails_and_exits not found")
     tails, exits = [p.arg for p in fn.params if p.arg != "self"]
-    cases = []
-    for st0 in A.body_without_docstring(fn.node):
-        cur = st0
-        while isinstance(cur, ast.If):
-            cases.append(cur)
-            cur = cur.orelse[0] if len(cur.orelse) == 1 and isinstance(cur.orelse[0], ast.If) else None
-    for st in cases:
-        rets = [r for r in st.body if isinstance(r, ast.Return)]
-        if not rets or not isinstance(rets[-1].value, ast.Tuple) or len(rets[-1].value.elts) != 2:
-            continue
-        key = "case " + A.alpha_key(st.test)
-        where = ctx.where(fn, st)
-        r_tail, r_exit = [A.unparse(e) for e in rets[-1].value.elts]
-        cfg = ctx.cfg(fn)
-
-        def origin(name: str) -> str:
-            for s in st.body:
-                if isinstance(s, ast.Assign) and isinstance(s.targets[0], ast.Name) and s.targets[0].id == name:
-                    v = A.unparse(s.value)
-                    if "new_block_name" in v:
-                        return "fresh"
-                    if v == f"next(iter({tails}))" or v == f"{tails}[0]":
-                        return "the-tail"
-                    if v == f"next(iter({exits}))" or v == f"{exits}[0]":
-                        return "the-exit"
-                    return "other:" + v
-            return "undefined"
-
-        # an insertion through the typed wrapper or through insert_block(.., SyntheticTail / SyntheticExit)
-        # (forwarding wrappers are expanded at load time, sa/inline.py)
-        def _ins(cls_name: str):
-            found = []
-            for c in A.walk_no_nested(ast.Module(st.body, [])):
-                if not (isinstance(c, ast.Call) and isinstance(c.func, ast.Attribute)):
-                    continue
-                if c.func.attr == "insert_" + cls_name:
-                    found.append(c)
-                elif c.func.attr == "insert_block":
-                    bt = kw(c, "block_type", 3)
-                    if bt is not None and (A.dotted(bt) or "").split(".")[-1] == cls_name:
-                        found.append(c)
-            return found
-
-        t_ins = _ins("SyntheticTail")
-        e_ins = _ins("SyntheticExit")
-        probs = []
-        ot, oe = origin(r_tail), origin(r_exit)
-        # tail side
-        if t_ins:
-            c = t_ins[0]
-            a = [A.unparse(x) for x in c.args][:3]
-            if ot != "fresh" or a[0] != r_tail:
-                probs.append(f"a tail block is inserted as {a[0]} but {r_tail} ({ot}) is returned as the tail")
-            if a[1:] != [tails, exits]:
-                probs.append(f"the tail is inserted between {a[1:]} instead of ({tails}, {exits})")
-        elif ot != "the-tail":
-            probs.append(f"no tail is inserted but the returned tail {r_tail} is {ot}, not the single given tail")
-        # exit side
-        if e_ins:
-            c = e_ins[0]
-            a = [A.unparse(x) for x in c.args][:3]
-            want_pred = f"[{r_tail}]" if t_ins else tails
-            if oe != "fresh" or a[0] != r_exit:
-                probs.append(f"an exit block is inserted as {a[0]} but {r_exit} ({oe}) is returned as the exit")
-            if a[1:] != [want_pred, exits]:
-                probs.append(f"the exit is inserted between {a[1:]} instead of ({want_pred}, {exits})")
-            if t_ins and cfg.node_of(e_ins[0]) not in cfg.reachable(cfg.node_of(t_ins[0])):
-                probs.append("the exit is inserted before the tail")
-        elif oe != "the-exit":
-            probs.append(f"no exit is inserted but the returned exit {r_exit} is {oe}, not the single given exit")
-        if probs:
-            out.append(bad("TOTAL-5", fn.qualname, key, where, "; ".join(probs)))
-        else:
-            out.append(ok("TOTAL-5", fn.qualname, key, where, f"tail: {'inserted' if t_ins else 'given'}, exit: {'inserted' if e_ins else 'given'}; returned names are those"))
+    body = A.body_without_docstring(fn.node)
+    name = lambda v: f"{v}+" if v == 4 else str(v)  # noqa: E731
+    for lt in LEN_CLASSES[1:]:
+        for le in LEN_CLASSES[1:]:
+            key = f"wiring for len({tails})={name(lt)}, len({exits})={name(le)}"
+            run = _JoinRun(tails, exits, lt, le)
+            st = run.run(body)
+            where = ctx.where(fn, run.node) if run.node is not None else ctx.where(fn)
+            if st == "unknown":
+                out.append(unresolved("TOTAL-5", fn.qualname, key, where, f"a condition cannot be evaluated on length classes ('{A.unparse(getattr(run.node, 'test', run.node))[:50]}')"))
+                continue
+            if st != "return" or run.result is None:
+                continue  # TOTAL-1 reports cases that are not handled
+            r_tail, r_exit = run.result
+            tail_ins = [e for e in run.events if e[0] == "SyntheticTail"]
+            exit_ins = [e for e in run.events if e[0] == "SyntheticExit"]
+            other = [e for e in run.events if e[0] not in ("SyntheticTail", "SyntheticExit")]
+            probs = []
+            ot, oe = run.origin.get(r_tail, "undefined"), run.origin.get(r_exit, "undefined")
+            want_tail, want_exit = lt >= 2, le >= 2
+            if other:
+                probs.append(f"a block of another kind is inserted ({other[0][0]})")
+            if len(tail_ins) != (1 if want_tail else 0):
+                probs.append(f"{len(tail_ins)} tail block(s) inserted for {name(lt)} tail(s)")
+            if len(exit_ins) != (1 if want_exit else 0):
+                probs.append(f"{len(exit_ins)} exit block(s) inserted for {name(le)} exit(s)")
+            if want_tail and tail_ins:
+                _c, nm, preds, succs, _s = tail_ins[0]
+                if ot != "fresh" or nm != r_tail:
+                    probs.append(f"a tail block is inserted as {nm} but {r_tail} ({ot}) is returned as the tail")
+                if (preds, succs) != (tails, exits):
+                    probs.append(f"the tail is inserted between ({preds}, {succs}) instead of ({tails}, {exits})")
+            elif not want_tail and ot != f"only:{tails}":
+                probs.append(f"no tail is inserted but the returned tail {r_tail} is {ot}, not the single given tail")
+            if want_exit and exit_ins:
+                _c, nm, preds, succs, s_exit = exit_ins[0]
+                want_pred = f"[{r_tail}]" if want_tail else tails
+                if oe != "fresh" or nm != r_exit:
+                    probs.append(f"an exit block is inserted as {nm} but {r_exit} ({oe}) is returned as the exit")
+                if (preds, succs) != (want_pred, exits):
+                    probs.append(f"the exit is inserted between ({preds}, {succs}) instead of ({want_pred}, {exits})")
+                if want_tail and tail_ins and run.events.index(exit_ins[0]) < run.events.index(tail_ins[0]):
+                    probs.append("the exit is inserted before the tail")
+            elif not want_exit and oe != f"only:{exits}":
+                probs.append(f"no exit is inserted but the returned exit {r_exit} is {oe}, not the single given exit")
+            if probs:
+                out.append(bad("TOTAL-5", fn.qualname, key, where, "; ".join(probs)))
+            else:
+                out.append(ok("TOTAL-5", fn.qualname, key, where, f"tail: {'inserted' if want_tail else 'given'}, exit: {'inserted' if want_exit else 'given'}; returned names are those"))
     return out
 
 
